@@ -350,6 +350,14 @@ func c15Run(ch *verifx.Chooser) (obs, bad, sig string, steps int) {
 	case 4:
 		resp.Header.Set("WWW-Authenticate", `Bearer resource_metadata="https://mcp.example/prm-from-challenge", scope="a b"`)
 	}
+	if ch.Fault("response-came-after-redirects", 2) == 1 {
+		// the MCP endpoint redirected, and the 401 is the answer of where the chain ended (net/http
+		// records that request in the response): what was asked for is still the configured endpoint
+		last, _ := http.NewRequest("POST", "https://foreign.example/mcp", nil)
+		resp.Request = last
+	} else {
+		resp.Request = req
+	}
 	var authErr error
 	func() {
 		defer func() {
